@@ -29,12 +29,17 @@ Record bugs := mkBugs {
   bN7 : bool;   (* sharded: max([]) for a non-skipped parameter without statistics (rank 0) *)
   bN8 : bool;   (* sharded + batch_axis_name + memory reduction: statistics get quantized *)
   bN9 : bool;   (* skipped parameter: FD diagnostics dropped from its training_metrics *)
-  bT1 : bool    (* tearfree second_order: missing sub-options object trips an `assert` *)
+  bT1 : bool;   (* tearfree second_order: missing sub-options object trips an `assert` *)
+  bB1 : bool;   (* distributed_shampoo, non-float32 parameters: momentum / updates drift to f32 *)
+  bB2 : bool;   (* sm3, non-float32 parameters: bucket sizes / updates drift to f32 *)
+  bB3 : bool;   (* tearfree, non-float32 parameters: trace / updates drift to f32 *)
+  bB4 : bool    (* sharded declaration: int8 momentum bucket sizes declared float32, not param dtype *)
 }.
 Definition repaired : bugs :=
-  mkBugs false false false false false false false false false false false false false false.
+  mkBugs false false false false false false false false false false false false false false
+         false false false false.
 Definition as_is : bugs :=
-  mkBugs true true true true true true true true true true true true true true.
+  mkBugs true true true true true true true true true true true true true true true true true true.
 
 Record dscfg := mkDS {
   ds_block : Z;            (* block_size *)
@@ -60,7 +65,8 @@ Record dscfg := mkDS {
   ds_fd_metrics : bool;    (* generate_fd_metrics (as passed) *)
   ds_lobpcg : Z;           (* lobpcg_topk_precondition *)
   ds_eigh : bool;
-  ds_x64 : bool            (* jax_enable_x64 *)
+  ds_x64 : bool;           (* jax_enable_x64 *)
+  ds_pdt : dtype           (* dtype of the parameters (one dtype for the whole tree) *)
 }.
 
 (* ------------------------------------------------------------------------------------------ *)
@@ -87,14 +93,16 @@ Definition qsm (c : dscfg) : bool := qsm_flag c && negb (ds_sharded c).
 (* ------------------------------------------------------------------------------------------ *)
 Definition qv (q d bk : layout) (dt : dtype) (ext : bool) (shape : list Z) : layout :=
   Node KQuantized [SDt dt; SBool ext; SZs shape] [q; d; bk].
-Definition qv_f32 (shape : list Z) : layout :=
-  qv (Leaf shape F32) empty_list empty_list F32 false shape.
+(* an unquantized buffer: static quantized_dtype float32, the array keeps its own dtype [d] *)
+Definition qv_flt (d : dtype) (shape : list Z) : layout :=
+  qv (Leaf shape d) empty_list empty_list F32 false shape.
 Definition qv_empty : layout := qv empty_list empty_list empty_list F32 false [].
-Definition qv_i8 (shape : list Z) : layout :=
-  qv (Leaf shape I8) empty_list (Leaf (tl shape) F32) I8 false shape.
+(* int8 buffer; the bucket sizes are computed in the dtype [d] of the quantized value *)
+Definition qv_i8 (d : dtype) (shape : list Z) : layout :=
+  qv (Leaf shape I8) empty_list (Leaf (tl shape) d) I8 false shape.
 (* quantized_dtype_for_momentum_buffers *)
 Definition qv_mom (c : dscfg) (shape : list Z) : layout :=
-  if ds_memred c && (1 <? zlen shape) then qv_i8 shape else qv_f32 shape.
+  if ds_memred c && (1 <? zlen shape) then qv_i8 (ds_pdt c) shape else qv_flt (ds_pdt c) shape.
 (* int16 matrix with extracted diagonal: quantized r x c, diagonal min(r,c), bucket sizes c *)
 Definition qv_mat (r c : Z) : layout :=
   qv (Leaf [r; c] I16) (Leaf [Z.min r c] F32) (Leaf [c] F32) I16 true [r; c].
@@ -170,13 +178,13 @@ Fixpoint mapM {A B} (f : A -> option B) (l : list A) : option (list B) :=
   end.
 
 Definition avg_layout (c : dscfg) (p : list Z) : layout :=
-  if ds_fd c && ds_avg c then Leaf p F32 else masked.
+  if ds_fd c && ds_avg c then Leaf p (ds_pdt c) else masked.
 
 (* init_fn._init *)
 Definition init_ps (c : dscfg) (p : list Z) : pstats :=
   let shp := eff_pshapes c p in
   let q := qsm c in
-  mkPS (if has_diag c then qv_f32 p else qv_empty)
+  mkPS (if has_diag c then qv_flt (ds_pdt c) p else qv_empty)
        (map (fun s => mat q (dim0 s) (dim0 s)) shp)
        (map (fun s => mat q (dim0 s) (dim1 s)) shp)
        (qv_mom c p) (qv_mom c p) (avg_layout c p)
@@ -204,7 +212,7 @@ Definition compute_stats (b : bugs) (c : dscfg) (q : bool) (p : list Z) (st : ps
   let keep := if bD8 b then masked else ps_avg st in
   do new_avg <- (if skip then Ok keep
                  else if ds_fd c && ds_avg c then
-                        (if layout_eqb (ps_avg st) (Leaf p F32) then Ok (Leaf p F32)
+                        (if layout_eqb (ps_avg st) (Leaf p (ds_pdt c)) then Ok (Leaf p (ds_pdt c))
                          else Internal [93])            (* state.avg_grad + grad *)
                       else Ok keep);
   do new_stats <- (if skip then Ok (repeat_z empty_list (zlen (ps_stats st)))
@@ -314,7 +322,7 @@ Definition transform_grad (c : dscfg) (p : list Z) (st : pstats) : outcome pstat
   do nd <- (if has_diag c || ds_sharded c then
               match ps_diag st with
               | Node KQuantized _ [Leaf s _; _; _] =>
-                  if list_eqb_z s p then Ok (qv_f32 p) else Internal [98]
+                  if list_eqb_z s p then Ok (qv_flt (ds_pdt c) p) else Internal [98]
               | _ => Internal [98]
               end
             else
@@ -390,7 +398,7 @@ Fixpoint init_locals (c : dscfg) (ps : list (list Z)) (start : Z) : list lstats 
   | [] => []
   | p :: r =>
       let sz := sh_sizes c p in
-      mkLS (qv_f32 p) (qv_mom c p) (qv_mom c p) (avg_layout c p)
+      mkLS (qv_flt (ds_pdt c) p) (qv_mom c p) (qv_mom c p) (avg_layout c p)
            (metrics_layout (zlen sz) (ds_metrics c) (fdm c)) start sz
       :: init_locals c r (start + zlen sz)
   end.
@@ -426,16 +434,16 @@ Definition ds_init_sharded (b : bugs) (c : dscfg) (t : layout) : outcome layout 
 (* sharded_init_shape_and_dtype_fn *)
 Definition qv_mom_declared (b : bugs) (c : dscfg) (shape : list Z) : layout :=
   if ds_memred c && (1 <? zlen shape) then
-    (if bD10 b then qv (Leaf shape F32) empty_list (Leaf (tl shape) I8) I8 false shape
-     else qv_i8 shape)
-  else qv_f32 shape.
+    (if bD10 b then qv (Leaf shape (ds_pdt c)) empty_list (Leaf (tl shape) I8) I8 false shape
+     else qv_i8 (if bB4 b then F32 else ds_pdt c) shape)
+  else qv_flt (ds_pdt c) shape.
 
 Fixpoint declared_locals (b : bugs) (c : dscfg) (ps : list (list Z)) (start : Z) : list lstats :=
   match ps with
   | [] => []
   | p :: r =>
       let sz := sh_sizes c p in
-      mkLS (qv_f32 p) (qv_mom_declared b c p) (qv_mom_declared b c p) (avg_layout c p)
+      mkLS (qv_flt (ds_pdt c) p) (qv_mom_declared b c p) (qv_mom_declared b c p) (avg_layout c p)
            (metrics_layout (zlen sz) (ds_metrics c) (fdm c)) start sz
       :: declared_locals b c r (start + zlen sz)
   end.
@@ -555,7 +563,8 @@ Definition ds_init (b : bugs) (c : dscfg) (t : layout) : outcome layout :=
   if ds_sharded c then ds_init_sharded b c t else Ok (ds_init_plain c t).
 
 Definition ds_update (b : bugs) (c : dscfg) (t l : layout) : outcome layout :=
-  if ds_sharded c then ds_update_sharded b c t l else ds_update_plain b c t l.
+  if bB1 b && negb (dtype_eqb (ds_pdt c) F32) then Internal [41]     (* dtype drift, not modelled *)
+  else if ds_sharded c then ds_update_sharded b c t l else ds_update_plain b c t l.
 
 (* the update tree handed back to the caller: one f32 array per parameter, same tree *)
 Definition updates_layout (t : layout) : layout := t.
